@@ -64,6 +64,22 @@ def gen_cases(rng, tier):
         else:
             dice, _ = pools.gen_pool(rng, max_dice=4, max_faces=3)
             cases.append({"kind": "sum_h", "dice": dice})
+    for _ in range(max(6, n // 40)):
+        # numeric dice whose textual order differs from their numeric order (2 vs 10), next to a symbolic die
+        nums = rng.sample([2, 10, 3, 20, 100, 9], rng.randint(2, 4))
+        dice = [[[v, 1]] if rng.random() < 0.6 else [[v, 1], [v + 1, 2]] for v in nums]
+        dice.insert(rng.randrange(len(dice) + 1), [[rng.choice(["x", "y"]), 1]])
+        perms = []
+        for _p in range(3):
+            perm = list(range(len(dice)))
+            rng.shuffle(perm)
+            perms.append(perm)
+        splits = []
+        for _s in range(3):
+            a = rng.randint(0, len(dice) - 1)
+            b = rng.randint(a + 1, len(dice))
+            splits.append([a, b])
+        cases.append({"kind": "mkp_sym", "sym_dice": dice, "perms": perms, "splits": splits})
     return cases
 
 
@@ -108,9 +124,33 @@ def _n_py(case):
     return v
 
 
+def _impl_sym(case):
+    """pools that contain a die with unorderable (symbolic) outcomes: flattening, argument order and nesting still give
+    ONE canonical order (outside the Coq model's outcome domain)"""
+    from dyce import H, P
+    from props.C10 import Sym
+
+    def die(d):
+        return H({(Sym(o) if isinstance(o, str) else o): c for o, c in d})
+    dice = [die(d) for d in case["sym_dice"]]
+    flat = P(*dice)
+    ref = [repr(h) for h in flat]
+    ok = True
+    for perm in case["perms"]:
+        ok = ok and [repr(h) for h in P(*[dice[i] for i in perm])] == ref
+    for split in case["splits"]:
+        nested = P(*dice[:split[0]], P(*dice[split[0]:split[1]]), *dice[split[1]:])
+        ok = ok and [repr(h) for h in nested] == ref and nested == flat
+        nested2 = P(P(*dice[:split[0]]), P(*dice[split[0]:]))
+        ok = ok and [repr(h) for h in nested2] == ref
+    return {"sym_ok": ok, "n": len(flat)}
+
+
 def impl_run(case):
     from dyce import H, P
     k = case["kind"]
+    if k == "mkp_sym":
+        return _impl_sym(case)
     if "nfrac" in case:
         try:
             x = H(gens.py_hist_dict(case["h"])) if k == "matmul_h" else pools.py_pool(case["dice"])
@@ -168,6 +208,8 @@ def _cargs(args):
 
 def coq_check(case, r):
     k = case["kind"]
+    if k == "mkp_sym":
+        return None
     if "nfrac" in case:
         return None     # non-integral repetition count: decided by the oracle (rejected with TypeError)
     if "ok" not in r and "exc" not in r:
@@ -228,6 +270,8 @@ def _flatten(args):
 
 def oracle(case):
     k = case["kind"]
+    if k == "mkp_sym":
+        return {"spec": "one canonical order whatever the argument order and nesting"}
     if "nfrac" in case:
         return {"exc": "TypeError"}
     if k == "matmul_h":
@@ -268,6 +312,8 @@ def oracle(case):
 
 
 def agree(case, r, o):
+    if case["kind"] == "mkp_sym":
+        return bool(r.get("sym_ok"))
     if "exc" in o:
         return r.get("exc") == o["exc"]
     if "ok" not in r:
@@ -288,6 +334,8 @@ def agree(case, r, o):
 
 def nontrivial(case, r):
     k = case["kind"]
+    if k == "mkp_sym":
+        return True
     if k == "matmul_h":
         return case["n"] >= 2 and len(case["h"]) >= 1
     if k == "matmul_p":
